@@ -122,6 +122,12 @@ def assert_frame_cases() -> None:
     # frame_obj is filled in only when the iframe is not embedded inside it
     assert outlived_iframe.frame_obj == 0
 
+    # Both frames below refer back to this function's own frame (this_frame
+    # directly, outlived_frame through its f_back), which would make a
+    # reference cycle that keeps all of our callers' frames alive until the
+    # next garbage collection pass
+    del this_frame, outlived_frame
+
 
 assert_frame_cases()
 
